@@ -632,6 +632,9 @@ func c46bRouting(r *vk.Run, e *c46bEnv) {
 	menu := c46bRouteMenu(r.Thorough())
 	maxRoutes := 3
 	domainPairs := [][2][]string{{{"a.b"}, {"*"}}, {{"*.b"}, {"a.*", "*.a.b"}}, {{"*"}, {"*"}}}
+	if !r.Thorough() {
+		domainPairs = domainPairs[:2]
+	}
 	authorities := []string{"a.b", "x.a.b"}
 	methods := []string{"/s/m", "/S/M", "/s/x", "/t/m"}
 	mds := []map[string][]string{nil, {"h": {"a"}}, {"h": {"a", "a"}}}
@@ -1159,7 +1162,7 @@ func TestVerif_C46_Resolver(t *testing.T) {
 	const P = c46bP
 	r := vk.Start(t, "c46b_resolver", "exploration", P)
 	defer r.Finish()
-	r.Rule(P, "RouteConfiguration protos decoded by the production RDS decoder, virtual host by FindBestMatchingVirtualHost, config selector by xdsResolver.newConfigSelector, RPCs through SelectConfig. (R) every list of 1..3 routes over a menu of 12 routes (quick; 25 thorough) = {prefix '', prefix /s/, path /s/m case-insensitive, regex /t/.*} x {no header, header h exact a, fraction 500000} placed in virtual host #0 of 3 domain layouts x 2 authorities, x RPCs {4 methods x 3 metadata x 3 fraction draws x 2 WRR choices}; oracle: brute-force best virtual host, FIRST route whose path, header and fraction matchers all hold, the WRR-chosen non-zero-weight cluster of that route; non-trivial = RPCs for which >=2 routes match. (W) every weighted_clusters list of length 1..3 over weights {0,1,2,5}: each non-zero cluster is added to the WRR with exactly its weight and the WRR's choice is the cluster used. (H) every hash-policy list of length 1..2 (3 thorough) over {header h1, h1 terminal, h2, h1 regex-rewrite, channel_id, channel_id terminal, header x-bin} x 16 metadata layouts: the request hash is unchanged by every perturbation of a non-configured input (method, authority, other user headers, extra metadata, fraction draw, channel id when no channel_id policy); non-trivial = perturbed evaluations")
+	r.Rule(P, "RouteConfiguration protos decoded by the production RDS decoder, virtual host by FindBestMatchingVirtualHost, config selector by xdsResolver.newConfigSelector, RPCs through SelectConfig. (R) every list of 1..3 routes over a menu of 12 routes (quick; 25 thorough) = {prefix '', prefix /s/, path /s/m case-insensitive, regex /t/.*} x {no header, header h exact a, fraction 500000} placed in virtual host #0 of 2 (quick) / 3 (thorough) domain layouts x 2 authorities, x RPCs {4 methods x 3 metadata x 3 fraction draws x 2 WRR choices}; oracle: brute-force best virtual host, FIRST route whose path, header and fraction matchers all hold, the WRR-chosen non-zero-weight cluster of that route; non-trivial = RPCs for which >=2 routes match. (W) every weighted_clusters list of length 1..3 over weights {0,1,2,5}: each non-zero cluster is added to the WRR with exactly its weight and the WRR's choice is the cluster used. (H) every hash-policy list of length 1..2 (3 thorough) over {header h1, h1 terminal, h2, h1 regex-rewrite, channel_id, channel_id terminal, header x-bin} x 16 metadata layouts: the request hash is unchanged by every perturbation of a non-configured input (method, authority, other user headers, extra metadata, fraction draw, channel id when no channel_id policy); non-trivial = perturbed evaluations")
 
 	e, err := c46bNewEnv()
 	if err != nil {
